@@ -1179,6 +1179,13 @@ def std_model(I, p, fr, t, args):
         if r is None:
             return Unknown("eq")
         return r if n == "eq" else (not r)
+    # calling a closure / function value that was passed in: Fn::call(&f, (args,))
+    if n in ("call", "call_mut", "call_once") and (t.get("callee_trait") or "").startswith("core::ops::function::Fn") and len(args) == 2:
+        fv = d0
+        tup = I.deref(args[1])
+        if isinstance(fv, FnVal) and isinstance(tup, Adt) and tup.path is None:
+            vals = [tup.fields[k_] for k_ in sorted(tup.fields, key=lambda x: int(x) if str(x).isdigit() else 0)]
+            return I.call_value(fv, vals, getattr(fr, "depth", 0))
     # the `?` operator: Try::branch / FromResidual::from_residual on Option and Result
     if n == "branch" and t.get("callee_trait") == "core::ops::try_trait::Try" and isinstance(d0, Adt) and d0.path in ("core::option::Option", "core::result::Result") \
             and d0.variant in ("Some", "None", "Ok", "Err"):
